@@ -297,6 +297,8 @@ pub fn outcome_of(prog: &Prog, world: Option<&Arc<World>>, log: &rec::ExecLog, t
 pub enum Mode {
     /// exhaustive enumeration with a cap on executions
     Enum(u64),
+    /// exhaustive enumeration of the schedules without spurious wake-ups
+    EnumNoSpurious(u64),
     /// RandomScheduler, `iters` executions in total, spread over runs that restart after a failure
     Random { seed: u64, iters: u64 },
     /// PctScheduler
@@ -360,8 +362,8 @@ pub fn explore_prog(prog: &Prog, mode: Mode, clocks: bool) -> Exploration {
     };
 
     match mode {
-        Mode::Enum(cap) => {
-            let r = explore::enumerate(body, cfg, cap, handle);
+        Mode::Enum(cap) | Mode::EnumNoSpurious(cap) => {
+            let r = explore::enumerate_opt(body, cfg, cap, matches!(mode, Mode::EnumNoSpurious(_)), handle);
             let mut e = ex.borrow_mut();
             e.complete = r.complete;
             e.diverged = r.diverged;
@@ -521,9 +523,9 @@ pub fn check_prog(
     for op in prog.tasks.iter().flatten() {
         acc.opkinds.insert(op_kind(op));
     }
-    let is_enum = matches!(mode, Mode::Enum(_));
+    let is_enum = matches!(mode, Mode::Enum(_) | Mode::EnumNoSpurious(_));
     let t0 = std::time::Instant::now();
-    let mm = model::must_may(prog, 400_000);
+    let mm = model::must_may_opt(prog, 400_000, !matches!(mode, Mode::EnumNoSpurious(_)));
     let t_model = t0.elapsed().as_secs_f64();
     if !mm.complete {
         acc.add("programs_model_over_cap", 1);
